@@ -14,13 +14,10 @@ structure WF (s : AverageTrueRange F) : Prop where
 
 theorem new_eq (p : Nat) :
     (new p : Res (AverageTrueRange F)) =
-      if p = 0 then .err .InvalidParameter
-      else if p + 1 ≤ usizeMax then .ok (fresh p) else .panic := by
+      if p = 0 then .err .InvalidParameter else .ok (fresh p) := by
   unfold new
   rw [ExponentialMovingAverage.new_eq]
-  by_cases h0 : p = 0
-  · simp [h0, bind, Res.bind]
-  · by_cases h1 : p + 1 ≤ usizeMax <;> simp [h0, h1, bind, Res.bind, fresh, TrueRange.new_eq]
+  by_cases h0 : p = 0 <;> simp [h0, bind, Res.bind, fresh, TrueRange.new_eq]
 
 theorem fresh_wf (p : Nat) (hp : 0 < p) : WF (fresh p : AverageTrueRange F) :=
   ⟨ExponentialMovingAverage.fresh_wf p hp⟩
@@ -68,6 +65,6 @@ theorem display_eq (fmt : F → String) (s : AverageTrueRange F) :
 theorem default_eq : (default_ : Option (AverageTrueRange F)) = some (fresh 14) := by
   unfold default_
   rw [new_eq]
-  simp [unwrap, usizeMax]
+  simp [unwrap]
 
 end TaRs.Gen.AverageTrueRange
